@@ -27,8 +27,11 @@ TcpPeer(p) == IF p.peer.fam = "xff_loopback" THEN Loopback ELSE p.peer.addr
 ShouldAuth(p) == p.ext = "wellformed" /\ PeerIsV4(p) /\ InsideAny(TcpPeer(p), SeqToSet(p.blocks))
 G_C11_OnlyInside(p, o)  == o.auth => ShouldAuth(p)
 G_C11_InsideWorks(p, o) == (ShouldAuth(p) /\ p.site # "readback") => o.auth
+\* site "mint": the certificate is minted by the issuing endpoint for exactly p.blocks as requestor netblocks (the request
+\* also names TARGET netblocks - where the certificates it will ask for may be used; they are no part of this certificate),
+\* then read back and presented from the peer
 G_C11_Corrupted(p, o)   == p.ext # "wellformed" => ~o.auth
-G_C11_ReadBack(p, o)    == (p.site = "readback" /\ p.ext = "wellformed") =>
+G_C11_ReadBack(p, o)    == (p.site \in {"readback", "mint"} /\ p.ext = "wellformed") =>
                               o.blocks = [i \in DOMAIN p.blocks |-> [base |-> Network(p.blocks[i]), len |-> p.blocks[i].len]]
 G_C11_RefreshSame(p, o) == (p.site = "refresh" /\ o.auth) =>
                               (o.cn = "svc" /\ o.blocks = [i \in DOMAIN p.blocks |-> [base |-> Network(p.blocks[i]), len |-> p.blocks[i].len]])
@@ -49,17 +52,19 @@ Lists(l) == {<<Blk(Base, l)>>, <<Blk(Base, l), Blk(127 * Pow2(24), 8)>>,
              <<Blk(Base, IF l + 4 <= 32 THEN l + 4 ELSE 32), Blk(Base, l)>>}
 \* checkauth_pw: the same endpoint on a server whose operator also admits passwords (and so keymaster user
 \* certificates) for certificates - the role certificate must still only work through the IP-restricted path
-Sites == {"library", "checkauth", "checkauth_pw", "refresh", "readback"}
+Sites == {"library", "checkauth", "checkauth_pw", "refresh", "readback", "mint"}
 Peer(f, a) == [fam |-> f, addr |-> a]
 InC11(p) == \/ \E l \in 0..32, s \in Sites : \E bl \in Lists(l) :
                  \E a \in Positions(Blk(Base, l)), f \in {"v4", "v4mapped"} :
                     p = [blocks |-> bl, peer |-> Peer(f, a), site |-> s, ext |-> "wellformed"]
-            \/ \E l \in {8, 20, 32}, s \in Sites \ {"library", "readback"} : \E bl \in Lists(l) :
+            \/ \E l \in {8, 20, 32}, s \in Sites \ {"library", "readback", "mint"} : \E bl \in Lists(l) :
                  p = [blocks |-> bl, peer |-> Peer("xff_loopback", Base), site |-> s, ext |-> "wellformed"]
-            \/ \E l \in {0, 8, 24, 32}, s \in Sites \ {"readback"}, f \in {"v6", "noport", "garbage", "empty"} :
+            \/ \E l \in {0, 8, 24, 32}, s \in Sites \ {"readback", "mint"}, f \in {"v6", "noport", "garbage", "empty"} :
                  p = [blocks |-> <<Blk(Base, l)>>, peer |-> Peer(f, Base), site |-> s, ext |-> "wellformed"]
             \/ \E x \in {"bitlen33", "bitlen40", "bitlen255", "shortbytes", "padding", "family_v6",
-                         "garbage", "empty_value", "manyentries", "nested"}, s \in Sites \ {"readback"}, a \in {Base, 16843009} :
+                         "garbage", "empty_value", "manyentries", "nested",
+                         \* a malformed entry FOLLOWED by a well-formed block that contains the peer: the extension is malformed
+                         "bitlen40_then_good", "bitlen33_then_good", "bitlen255_then_good"}, s \in Sites \ {"readback", "mint"}, a \in {Base, 16843009} :
                  p = [blocks |-> <<Blk(Base, 8)>>, peer |-> Peer("v4", a), site |-> s, ext |-> x]
             \/ p = [blocks |-> [i \in 1..32 |-> Blk(Base + i * Pow2(8), 32)], peer |-> Peer("v4", Base + 7 * Pow2(8)), site |-> "checkauth", ext |-> "wellformed"]
 
